@@ -152,7 +152,45 @@ def chk_units(case, acc, seed):
     acc.case(case, outcome='units')
 
 
-DISPATCH = {'blur': chk, 'units': chk_units}
+def chk_scale(case, acc, seed):
+    """linear: the blur of k * image is k * blur(image), for faint and bright frames alike (k a power of two: exact)"""
+    kind, shape, extent = case['blur'], tuple(case['shape']), case['extent']
+    img = rm.generic_real(shape, seed, tag=5, lo=0.5, hi=3.0)
+    base = np.asarray(call(kind, img, extent, 30))
+    for e in (-70, -55, -30, 30, 200):
+        k = 2.0 ** e
+        o = np.asarray(call(kind, img * k, extent, 30))
+        if rm.maxerr(o / k, base) > 1e-12 * np.max(base):
+            acc.violation(f'{kind}:not-homogeneous', dict(case, factor=f'2^{e}'),
+                          f'blur(2^{e} * img) / 2^{e} differs from blur(img) by {rm.maxerr(o / k, base):.3e} (total {np.sum(o / k)} vs {np.sum(base)})')
+            break
+        acc.transitions += 1
+    acc.cls('homogeneity')
+    acc.case(case, outcome='scale')
+
+
+def chk_buffer(case, acc, seed):
+    """a frame buffer blurred, refilled in place and blurred again gives the blur of its new contents"""
+    k1, k2, shape, extent = case['first'], case['second'], tuple(case['shape']), case['extent']
+    a = rm.generic_real(shape, seed, tag=6, lo=0.5, hi=3.0)
+    b = np.roll(rm.generic_real(shape, seed, tag=7, lo=0.5, hi=3.0), 1, 0)
+    engine.reset_library_state()
+    want = np.asarray(call(k2, b.copy(), extent, 45))
+    engine.reset_library_state()
+    buf = a.copy()
+    call(k1, buf, extent, 45)
+    buf[...] = b
+    got = np.asarray(call(k2, buf, extent, 45))
+    if rm.maxerr(got, want) > 1e-12 * np.max(want):
+        acc.violation(f'{k2}:stale-after-buffer-refill', case, f'{k1}(buf); buf[...] = new; {k2}(buf) differs from {k2}(new) by {rm.maxerr(got, want):.3e}')
+    got2 = np.asarray(call(k2, b.copy(), extent, 45))
+    if rm.maxerr(got2, want) > 1e-12 * np.max(want):
+        acc.violation(f'{k2}:history-dependent', case, f'{k2} of the same frame differs after an earlier {k1} call')
+    acc.cls('buffer-reuse')
+    acc.case(case, outcome='buffer')
+
+
+DISPATCH = {'blur': chk, 'units': chk_units, 'scale': chk_scale, 'buffer': chk_buffer}
 
 
 def t_shape(arg, acc):
@@ -163,9 +201,13 @@ def t_shape(arg, acc):
             acc.states += 1
             chk({'kind': 'blur', 'blur': kind, 'shape': shape, 'extent': ext, 'angle': ang,
                  'impulses': (ang in (0, 30) and ext in (0, 1, 2.5, 2))}, acc, seed)
+    for ext in ((1, 2) if kind == 'pixel' else (0.5, 1.5)):
+        chk_scale({'kind': 'scale', 'blur': kind, 'shape': shape, 'extent': ext}, acc, seed)
+        for k1 in ('pixel', 'jitter', 'smear'):
+            chk_buffer({'kind': 'buffer', 'first': k1, 'second': kind, 'shape': shape, 'extent': ext}, acc, seed)
     if kind != 'pixel':
         for ext in (0.5, 1.5):
-            for p in (5e-6, 2.0):
+            for p in (5e-6, 2.0, 4e-9, 3e-12):
                 for o in (1, 2, 3):
                     chk_units({'kind': 'units', 'blur': kind, 'shape': shape, 'extent': ext, 'p': p, 'o': o}, acc, seed)
 
@@ -185,7 +227,7 @@ def run(tier, seed, acc, procs=None):
         'bounds': {'shapes': shapes, 'extents': EXTENTS, 'angles': ANGLES},
         'assumptions': ['smear direction = (cos a, sin a) in (column, row) frequency coordinates (clockwise from the x axis on a row-down display)',
                         'Nyquist bound = sum |F H| over the unpaired Nyquist bins / N'],
-        'require': {'pixel:non-square': 8, 'jitter:non-square': 10, 'smear:non-square': 50, 'pixel:square': 4, 'conv-compared': 100, 'units': 50},
+        'require': {'pixel:non-square': 8, 'jitter:non-square': 10, 'smear:non-square': 50, 'pixel:square': 4, 'conv-compared': 100, 'units': 50, 'homogeneity': 30, 'buffer-reuse': 100},
     }
 
 
